@@ -37,7 +37,7 @@ RULE = ('operation histories of 6-40 (thorough: 6-80) steps on a plain or ordere
         '== -len, == len, > len, < -len} x offered-object class {fresh, duplicate, labelled elsewhere, incompatible, '
         'non-frame}); operations: construct (list/tuple/generator/object ndarray/Cadence, bad element mid-way), append, '
         'insert, item and slice assignment, del int/slice, pop, extend (incl. self, str, non-iterable), +=, int/slice/'
-        'index-list/index-ndarray selection, by_label, set_order (order shorter/equal/longer than the cadence); '
+        'index-list/index-ndarray/boolean-mask selection, by_label, set_order (order shorter/equal/longer than the cadence); '
         'non-trivial = a history with >=1 accepted insertion, >=1 demanded rejection and a cadence of >=2 frames compared; '
         'distinct = distinct descriptor')
 ASSUMPTIONS = [
@@ -455,6 +455,11 @@ class Steer:
                 idx = [int(v) for v in rng.integers(-n - 2, n + 3, size=k)]
             else:
                 idx = [int(v) for v in rng.integers(-n, n, size=k)]
+            if n > 0 and r >= 0.75:
+                # a boolean index array (one flag per member, e.g. the result of a comparison over the members) selects the
+                # members at its True positions
+                mask = [bool(v) for v in rng.integers(0, 2, size=n)]
+                return dict(op='getidx', idx=[p for p, v in enumerate(mask) if v], form='mask', mask=mask)
             form = pick(rng, ['list', 'list', 'int64', 'int32', 'uint8', 'intp'])
             if form == 'uint8':
                 idx = [abs(v) for v in idx]
@@ -1060,11 +1065,19 @@ class Run:
                 raises = False
             else:
                 idx = op['idx']
+                mask = None
+                if op['form'] == 'mask':
+                    mask = (list(op['mask']) + [False] * n)[:n]       # one flag per member the cadence has now
+                    idx = [p for p, v in enumerate(mask) if v]
                 raises = any(not -n <= v < n for v in idx)
                 want = None if raises else [m.items[v] for v in idx]
-                dtype = op['form'] if max(idx, default=0) < 256 else 'int64'
-                key = list(idx) if op['form'] == 'list' else np.array(idx, dtype=dtype)
-                tag = 'selection:index-' + ('list' if op['form'] == 'list' else 'ndarray')
+                dtype = op['form'] if max(idx, default=0) < 256 and mask is None else 'int64'
+                if mask is not None:
+                    key = np.array(mask, dtype=bool)
+                    tag = 'selection:index-mask'
+                else:
+                    key = list(idx) if op['form'] == 'list' else np.array(idx, dtype=dtype)
+                    tag = 'selection:index-' + ('list' if op['form'] == 'list' else 'ndarray')
                 if not idx:
                     tag += ':empty'
             res = None
@@ -1189,7 +1202,7 @@ def required(tier):
               'set_order:lt': 50, 'set_order:eq': 50, 'set_order:gt': 50,
               'order-vs-frames:lt': 50, 'order-vs-frames:eq': 50, 'order-vs-frames:gt': 50,
               'selection:slice:step1': 200, 'selection:slice:step+': 150, 'selection:slice:step-': 150,
-              'selection:index-list': 150, 'selection:index-ndarray': 250, 'selection:out-of-range-index-array': 80,
+              'selection:index-list': 150, 'selection:index-ndarray': 250, 'selection:index-mask': 100, 'selection:out-of-range-index-array': 80,
               'selection:>=2-frames': 500})
     for ic in IDX_CLASSES:
         b[f'label:fresh:insert:{ic}'] = 60
